@@ -41,7 +41,7 @@ func TestCheck(t *testing.T) {
 		Rule: "real Outgoing/IncomingHandshake + real credential checkers over a harness pipe in a synctest bubble (fake 10 s deadlines); exhaustive enumeration of " +
 			"(a) 64x64 side configurations (version 0..3, accepted subset of {1,2,3}, skip-verify|signed-peer-ids) x chunkings (whole, all 1-byte, <=2 (thorough: 3) one-byte deviations among the first 6 reads of each side), " +
 			"(b) man-in-the-middle manipulations of every frame of recorded runs (each byte x {^b,b^1,b+1,0,0xFF}, each truncation followed by rest/silence/EOF, type 0..5, length {0,len-1,len+1,limit,limit+1,2^32-1}, drop, duplicate, swap, 1-2 garbage bytes, well-formed frames of size limit and limit+1) under whole and 1-byte chunking, " +
-			"(c) recorded credentials replayed to other endpoints, (d) all histories of 2 (and 3) handshakes over a pool holding exactly one object x 96 handshake kinds, differential against a fresh object, " +
+			"(c) recorded credentials replayed to other endpoints, (d) all histories of 2 and 3 handshakes (quick: 3 only with the real side keeping role and mode; thorough: also 4 with that restriction) over a pool holding exactly one object, 96 handshake kinds, differential against a fresh object, " +
 			"(e) context cancellation before each conn operation of either side (close propagating / lost) and all schedules within a deviation bound (quick 3 for two / 2 for three handshakes, thorough 4 / 3) of the conn operations of 2-3 concurrent handshakes on the shared pool; " +
 			"states = distinct (case, verdict of both sides) tuples, transitions = frames written / scheduling decisions, executions = handshakes of the real code, " +
 			"distinct_nontrivial = distinct outcome classes (sub-check, mode pair or manipulation class, error of each side)",
